@@ -268,7 +268,10 @@ ASSUME = ["every operation is executed exactly once, atomically, on owner(key) b
 
 def run(tier, seed, model_ok=True):
     # a set's quiet workloads are cheap: more cases per flavour than C11
-    return E.run_flavours(FLAVOURS + [f for f in FLAVOURS if f.what == "set"], tier, seed + 1000, model_ok, RULE, ASSUME, race_env="C12_POST_CLEAR_NOBARRIER")
+    res = E.run_flavours(FLAVOURS + [f for f in FLAVOURS if f.what == "set"], tier, seed + 1000, model_ok, RULE, ASSUME, race_env="C12_POST_CLEAR_NOBARRIER")
+    from lib import swaprace
+    swaprace.run(res, "set", tier, seed)     # swap() / clear() followed at once by operations, no barrier
+    return res
 
 
 def replay(data):
